@@ -144,6 +144,9 @@ pub struct AdvCase {
     /// listener's primary name), disconnects, and only then makes the attempt described above
     #[serde(default)]
     pub prior_valid_visit: bool,
+    /// Z dials only: the hello carries no server name at all (no name is never an accepted name)
+    #[serde(default)]
+    pub no_sni: bool,
 }
 
 fn name_pool() -> BoxedStrategy<String> {
@@ -194,10 +197,11 @@ pub fn adv_case(c: &AdvCase, obs: &mut Obs) -> Result<(), Fail> {
                     other => vfail!("c14:same-network-refused", "listener with primary {:?} refused a fully valid visit: {:?}", primary, other.map(|r| r.map(|_| ()))),
                 }
             }
-            let r = within(20_000, adv::dial_and_await_ack(&ep, adv::client_config(Some(&presented), seen), l.addr(), &c.sni)).await;
+            let r = within(20_000, adv::dial_and_await_ack(&ep, adv::client_config_opts(Some(&presented), seen, !c.no_sni), l.addr(), &c.sni)).await;
             let admitted = matches!(r, Ok(Ok(_)));
             sleep_ms(100).await;
-            let sni_accepted = accepted.iter().any(|a| a.eq_ignore_ascii_case(c.sni.trim_end_matches('.')));
+            let sni_accepted = !c.no_sni && accepted.iter().any(|a| a.eq_ignore_ascii_case(c.sni.trim_end_matches('.')));
+            if c.no_sni { obs.label("hello-without-server-name"); }
             let cert_accepted = cert_ok_for(&accepted);
             if admitted {
                 vensure!(sni_accepted, "c14:foreign-sni-admitted", "listener accepting {:?} admitted a dialer claiming {:?}", accepted, c.sni);
@@ -205,7 +209,7 @@ pub fn adv_case(c: &AdvCase, obs: &mut Obs) -> Result<(), Fail> {
             }
             vensure!(l.net.peers().contains(&z_id) == admitted, "c14:listing-disagrees", "dialer admitted={admitted} but listener lists it = {}", l.net.peers().contains(&z_id));
             // completeness only for exact, plain names (the reference is deliberately lenient elsewhere)
-            if accepted.contains(&c.sni) && c.cert_names.iter().any(|n| accepted.contains(n) && plain(n)) && plain(&c.sni) {
+            if !c.no_sni && accepted.contains(&c.sni) && c.cert_names.iter().any(|n| accepted.contains(n) && plain(n)) && plain(&c.sni) {
                 vensure!(admitted, "c14:same-network-refused", "listener accepting {:?} refused a dialer claiming {:?} with a certificate for {:?}: {:?}", accepted, c.sni, c.cert_names, r.map(|r| r.map(|_| ())));
             }
             obs.label(if admitted { "dialer-admitted" } else { "dialer-refused" });
@@ -252,12 +256,12 @@ impl Part for Adversarial {
     type Case = AdvCase;
     fn name(&self) -> &'static str { "adversarial-names" }
     fn rule(&self) -> &'static str {
-        "an adversarial raw QUIC endpoint with a valid key dials an honest listener claiming SNI s while presenting a certificate with SANs c (s and c chosen independently from the name pool: the grid names, wildcards, label-suffix/prefix relatives, case variants, random), optionally after the same key paid a fully valid visit and disconnected (so that nothing remembered about a key can replace the checks), or is dialed by an honest node and presents c; oracle: admitted => s is an accepted name AND the certificate is valid for an accepted name (x509 reference); the honest dialer only ever claims its primary name and accepts only certificates valid for it; matching configurations are admitted; non-trivial = SNI accepted but certificate issued for another name (the path the suite never reaches) or vice versa; distinct by case"
+        "an adversarial raw QUIC endpoint with a valid key dials an honest listener claiming SNI s (or sending no server name at all) while presenting a certificate with SANs c (s and c chosen independently from the name pool: the grid names, wildcards, label-suffix/prefix relatives, case variants, random), optionally after the same key paid a fully valid visit and disconnected (so that nothing remembered about a key can replace the checks), or is dialed by an honest node and presents c; oracle: admitted => s is an accepted name AND the certificate is valid for an accepted name (x509 reference); the honest dialer only ever claims its primary name and accepts only certificates valid for it; matching configurations are admitted; non-trivial = SNI accepted but certificate issued for another name (the path the suite never reaches) or vice versa; distinct by case"
     }
     fn strategy(&self, _t: Tier) -> BoxedStrategy<AdvCase> {
         let cfg = (0u8..6, prop::option::of(0u8..6)).prop_map(|(primary, alternate)| NameCfg { primary, alternate: alternate.filter(|a| *a != primary) });
-        (cfg, name_pool(), prop::collection::vec(name_pool(), 1..3), any::<bool>(), prop::bool::weighted(0.3))
-            .prop_map(|(listener, sni, cert_names, z_dials, prior_valid_visit)| AdvCase { listener, sni, cert_names, z_dials, prior_valid_visit })
+        (cfg, name_pool(), prop::collection::vec(name_pool(), 1..3), any::<bool>(), prop::bool::weighted(0.3), prop::bool::weighted(0.15))
+            .prop_map(|(listener, sni, cert_names, z_dials, prior_valid_visit, no_sni)| AdvCase { listener, sni, cert_names, z_dials, prior_valid_visit, no_sni })
             .boxed()
     }
     fn run(&self, c: &AdvCase, obs: &mut Obs) -> Result<(), Fail> { adv_case(c, obs) }
